@@ -404,7 +404,9 @@ PROPS = {
              "the value range the encoder emits is contained in the range the decoder accepts (R-CODEC/compact-modes: "
              "intervals of bit_len per encoder arm vs intervals of the decoded integer per decoder arm); a header byte the "
              "RLP encoders build by hand as 0x80 + n has n <= 55 in every configuration up to 512 bits (R-CODEC/rlp-header, "
-             "interval of n where the byte is computed); (b) concrete pairs in Pod/ark/primitive-"
+             "interval of n where the byte is computed); the interval Encodable::length() can return for a value of bit "
+             "length k contains the RLP length of such a value, for every configuration and a boundary set of k "
+             "(R-CODEC/rlp-length: abstract interpretation with bit_len() == k substituted); (b) concrete pairs in Pod/ark/primitive-"
              "types impls are well-formed (R-WF); (c) encoders and length/size-hint functions reach no undischarged panic "
              "site (R-TOTAL) and, in overflow-checked builds, no undischarged arithmetic-overflow assertion in any "
              "configuration incl. widths above 256 bits (R-TOTAL/overflow-checks: this is what decides defect F16, the "
